@@ -137,6 +137,22 @@ example :
 
 example : commands "é;😀 b;;x".toList = .ok ["é".toList, "😀 b".toList, [], "x".toList] := by decide
 
+/-- The reference word motions on the examples of the doc comment of `find_word_next`:
+`abc+def` has word boundaries directly before and after the `+`, `abc  def` around the blanks. -/
+example : (RefEditor.wordRight exCls "abc+def".toList 0, RefEditor.wordRight exCls "abc+def".toList 3,
+           RefEditor.wordRight exCls "abc+def".toList 4, RefEditor.wordRight exCls "abc+def".toList 5) = (3, 4, 7, 7) ∧
+          (RefEditor.wordLeft exCls "abc+def".toList 7, RefEditor.wordLeft exCls "abc+def".toList 4,
+           RefEditor.wordLeft exCls "abc+def".toList 3, RefEditor.wordLeft exCls "abc+def".toList 2) = (4, 3, 0, 0) ∧
+          (RefEditor.wordRight exCls "abc  def".toList 1, RefEditor.wordRight exCls "abc  def".toList 3,
+           RefEditor.wordLeft exCls "abc  def".toList 8, RefEditor.wordLeft exCls "abc  def".toList 5,
+           RefEditor.wordLeft exCls "abc  def".toList 4) = (5, 5, 5, 0, 0) := by decide
+
+/-- Why I10 is needed: a *blank* history entry (which the editor never stores itself, but a
+hand-edited history file could contain) can be focused and submitted with Enter, and then the
+`debug_assert!` of `read_line` fails.  Outside the property's domain; recorded as a remark. -/
+example : session exCls [[' ']] [.up, .enter] =
+    .panic "read_line: should have read characters until non-empty" := by decide
+
 /-! ### D22 and the two other defects, as they were before the fixes -/
 
 /-- `find_word_next` before the fix: `string.char_indices().skip(cursor)` yields *byte*
